@@ -47,3 +47,11 @@ chk(
     "runtime monitoring: execution of the emitted DMA loop nests on a byte-memory machine with unique byte tags, compared against a reference layout function",
     "DESIGN.md section 3 C05",
 )
+chk(
+    "C09",
+    "exploration",
+    "Every snax.layout_cast result type produced by the real set-memory-layout (tiled=true and false) on schedules from the real scheduler (gemmx matmul/gemm/rescale/conv-like, alu, xdma operations) and on synthetic matmul-like schedules (1-2 tiling levels, any outer dimension order, widths 8..64) is certified by enumeration with an independent reference layout function: pairwise distinct element addresses and tile bounds that cover exactly the shape; schedule ops with an explicit #tsl operand must be left untouched.",
+    TB + "reference layout function vf/ref/layout.py. Schedules that do not cover their operand are out of domain.",
+    "runtime monitoring: result certification of the real pass's output (enumeration of the chosen layout against a reference address function)",
+    "DESIGN.md section 3 C09",
+)
